@@ -1099,7 +1099,73 @@ func c18Numeric(r *fw.Rec, blk, nblk int) {
 // c18NumericCCText goes the other way round: the text `cc N` for every N below
 // 1024 (named conventions included) is parsed and printed, and LLVM must read
 // the printed declaration as the same calling convention as the input.
+// c18NumericDwarfText: DWARF languages, encodings, tags and conventions written as
+// numbers (every value LLVM's own range check admits that matters: 1, a named
+// one, the user ranges, the maximum) are parsed and printed; LLVM must accept
+// both texts and read the same numbers.
+func c18NumericDwarfText(r *fw.Rec) {
+	var sb strings.Builder
+	sb.WriteString("!llvm.module.flags = !{!0}\n!0 = !{i32 2, !\"Debug Info Version\", i32 3}\n!1 = !DIFile(filename: \"a.c\", directory: \"/\")\n")
+	langs := []int{1, 12, 0x8000, 0x8001, 0x8e57, 0xb000, 0x9001, 0xffff}
+	id := 2
+	var cus []string
+	for _, l := range langs {
+		fmt.Fprintf(&sb, "!%d = distinct !DICompileUnit(language: %d, file: !1, emissionKind: FullDebug, retainedTypes: !%d)\n", id, l, id+1)
+		fmt.Fprintf(&sb, "!%d = !{!%d}\n", id+1, id+2)
+		fmt.Fprintf(&sb, "!%d = !DICompositeType(tag: DW_TAG_structure_type, name: \"S%d\", file: !1, size: 32, runtimeLang: %d)\n", id+2, l, l)
+		cus = append(cus, fmt.Sprintf("!%d", id))
+		id += 3
+	}
+	for _, e := range []int{1, 8, 0x80, 0xff} {
+		fmt.Fprintf(&sb, "!%d = !DIBasicType(name: \"b%d\", size: 8, encoding: %d)\n", id, e, e)
+		id++
+	}
+	fmt.Fprintf(&sb, "!llvm.dbg.cu = !{%s}\n", strings.Join(cus, ", "))
+	x := sb.String()
+	lx, _, okX, err := llvmref.Reading(x)
+	if err != nil || !okX {
+		r.Inconclusive("llvm-as does not accept the numeric DWARF module")
+		return
+	}
+	r.Eval(1)
+	m, perr, pmsg := parseGuard("c18-dwarf-numbers", x)
+	if pmsg != "" || perr != nil {
+		what := pmsg
+		if perr != nil {
+			what = perr.Error()
+		}
+		r.Violate(fw.Violation{Key: "numeric-dwarf-text/rejected", Input: x, What: "DWARF languages and encodings written as numbers, which LLVM accepts, are rejected: " + firstLine(what)})
+		return
+	}
+	y, pp := printGuard(m)
+	if pp != "" {
+		r.Violate(fw.Violation{Key: "numeric-dwarf-text/print-panic", Input: x, What: firstLine(pp)})
+		return
+	}
+	ly, msgY, okY, err := llvmref.Reading(y)
+	if err != nil {
+		return
+	}
+	if !okY {
+		r.Violate(fw.Violation{Key: "numeric-dwarf-text/output-invalid", Input: x, What: "LLVM rejects the printed module: " + firstLine(lastDiag(msgY)), Observed: y})
+		return
+	}
+	fields := func(t string) []string {
+		return regexp.MustCompile(`(language|runtimeLang|encoding): [A-Za-z_0-9]+`).FindAllString(t, -1)
+	}
+	fx, fy := fields(lx), fields(ly)
+	sort.Strings(fx)
+	sort.Strings(fy)
+	if strings.Join(fx, ";") != strings.Join(fy, ";") {
+		r.Violate(fw.Violation{Key: "numeric-dwarf-text/meaning-changed", Input: x, What: "LLVM reads other languages / encodings from the printed module than from the input", Expected: strings.Join(fx, "; "), Observed: strings.Join(fy, "; ")})
+		return
+	}
+	r.NontrivialN("numeric-dwarf-text", len(fx))
+	r.Tally("numeric_forms", "dwarf languages, runtime languages and encodings as numbers: ok")
+}
+
 func c18NumericCCText(r *fw.Rec) {
+	c18NumericDwarfText(r)
 	var sb strings.Builder
 	for cc := 0; cc < 1024; cc++ {
 		fmt.Fprintf(&sb, "declare cc %d void @f%d()\n", cc, cc)
